@@ -16,7 +16,7 @@ from hypothesis import strategies as st
 
 from .. import colors, raster, vector
 from ..common import call, Refused, Crash
-from ..runner import Dev, Outcome, Enum, Search, ROOT
+from ..runner import HarnessError, Dev, Outcome, Enum, Search, ROOT
 
 PROPERTY = 'C12'
 LEVEL = 'exploration'
@@ -107,6 +107,8 @@ def well_formed(kind, data):
             raster.read_xpm(data.decode('ascii'))
         elif kind == 'ans':
             raster.read_ansi(data.decode('utf-8'))
+    except (raster.Unsupported, vector.Unsupported) as ex:
+        raise HarnessError('reader limitation (%s): %s' % (kind, ex))
     except (raster.FormatError, vector.FormatError, UnicodeError) as ex:
         return str(ex)
     return None
